@@ -106,6 +106,10 @@ func unicodeToRune(code []byte) rune {
 	return r
 }
 
+func isHexDigit(c byte) bool {
+	return ('0' <= c && c <= '9') || ('a' <= c && c <= 'f') || ('A' <= c && c <= 'F')
+}
+
 func readAtLeast(s *Stream, n int64, p *unsafe.Pointer) bool {
 	for s.cursor+n >= s.length {
 		if !s.read() {
@@ -124,6 +128,11 @@ func decodeUnicodeRune(s *Stream, p unsafe.Pointer) (rune, int64, unsafe.Pointer
 		return rune(0), 0, nil, errors.ErrInvalidCharacter(s.char(), "escaped string", s.totalOffset())
 	}
 
+	for i := int64(1); i < defaultOffset; i++ {
+		if !isHexDigit(s.buf[s.cursor+i]) {
+			return rune(0), 0, nil, errors.ErrSyntax("invalid character in \\u hexadecimal character escape", s.totalOffset()+i)
+		}
+	}
 	r := unicodeToRune(s.buf[s.cursor+1 : s.cursor+defaultOffset])
 	if utf16.IsSurrogate(r) {
 		if !readAtLeast(s, surrogateOffset, &p) {
@@ -131,6 +140,12 @@ func decodeUnicodeRune(s *Stream, p unsafe.Pointer) (rune, int64, unsafe.Pointer
 		}
 		if s.buf[s.cursor+defaultOffset] != '\\' || s.buf[s.cursor+defaultOffset+1] != 'u' {
 			return unicode.ReplacementChar, defaultOffset, p, nil
+		}
+		for i := int64(defaultOffset + 2); i < surrogateOffset; i++ {
+			if !isHexDigit(s.buf[s.cursor+i]) {
+				// not a second escape: it is checked when the scanner reaches it
+				return unicode.ReplacementChar, defaultOffset, p, nil
+			}
 		}
 		r2 := unicodeToRune(s.buf[s.cursor+defaultOffset+2 : s.cursor+surrogateOffset])
 		if r := utf16.DecodeRune(r, r2); r != unicode.ReplacementChar {
